@@ -24,7 +24,8 @@ CONSTANTS Uris, Texts,
           MaxCfg,           \* at most this many "cfg" messages (each leads to a workspace reload)
           MaxDisk,          \* environment disk writes/deletes per behaviour
           OnDisk,           \* uris that exist on disk initially (content Disk0)
-          InlineOpen, InlineChange, InlineClose   \* mined: handled inline on the main loop?
+          InlineOpen, InlineChange, InlineClose,  \* mined: handled inline on the main loop?
+          EnableReindex     \* emmyrc workspace.enableReindex (didSave schedules a debounced full reindex)
 
 None == "none"        \* not open
 Absent == "absent"    \* not in the vfs / not on disk
@@ -37,6 +38,7 @@ MaxInc == MaxMsgs + 2   \* a uri cannot be removed more often than that in a bou
 DiagInterval == 500
 CfgDebounce == 2000
 WsDiagDelay == 500
+ReindexDelay == 5000
 
 VARIABLES script,     \* messages delivered so far
           mainBusy,   \* 0 or the index of the task running inline on the main loop
@@ -49,6 +51,7 @@ VARIABLES script,     \* messages delivered so far
           diagTok,    \* FileDiagnostic.diagnostic_tokens, keyed by FileId = (uri, incarnation): task index of the token stored, or 0
           wsTok,      \* workspace_diagnostic_token : task index or 0
           cfgTok,     \* config_reload_token (debounce task index or 0)
+          rxTok,      \* reindex_token (reindex task index or 0)
           reloadGen, reloadLock,
           anR, anW, wmR,   \* locks held ACROSS steps: sets of task indexes / index / set
           nDisk,
@@ -56,9 +59,9 @@ VARIABLES script,     \* messages delivered so far
           late,       \* uris closed while no reload was responsible for them (their vfs content is the close handler's business)
           hist        \* replay schedule with the projected state after each step (hidden by VIEW)
 
-vars == <<script, mainBusy, tasks, wmOpen, wmVer, vfs, disk, published, diagTok, wsTok, cfgTok,
+vars == <<script, mainBusy, tasks, wmOpen, wmVer, vfs, disk, published, diagTok, wsTok, cfgTok, rxTok,
           reloadGen, reloadLock, anR, anW, wmR, nDisk, late, inc, hist>>
-view == <<script, mainBusy, tasks, wmOpen, wmVer, vfs, disk, published, diagTok, wsTok, cfgTok,
+view == <<script, mainBusy, tasks, wmOpen, wmVer, vfs, disk, published, diagTok, wsTok, cfgTok, rxTok,
           reloadGen, reloadLock, anR, anW, wmR, nDisk, late, inc>>
 
 Proj(o, v, p, d) == [open |-> o, vfs |-> v, pub |-> p, disk |-> d]
@@ -68,7 +71,7 @@ Runnable(ts) == {j \in 1..Len(ts) : ts[j].pc # 99 /\ ts[j].sleep = 0}
 Woke(ts, ts2) == Runnable(ts2) \ Runnable(ts)
 
 Msgs == [kind : MsgKinds \cap {"open", "change"}, uri : Uris, text : Texts]
-          \cup [kind : MsgKinds \cap {"close", "watch", "wdel"}, uri : Uris, text : {None}]
+          \cup [kind : MsgKinds \cap {"close", "watch", "wdel", "save"}, uri : Uris, text : {None}]
           \cup [kind : MsgKinds \cap {"cfg"}, uri : {None}, text : {None}]
 
 \* task record; `sleep` > 0 while waiting for a timer; pc = Done when finished
@@ -86,7 +89,7 @@ Init == /\ script = <<>> /\ mainBusy = 0 /\ tasks = <<>>
         /\ disk = [u \in Uris |-> IF u \in OnDisk THEN Disk0 ELSE Absent]
         /\ vfs = [u \in Uris |-> IF u \in OnDisk THEN Disk0 ELSE Absent]
         /\ published = [u \in Uris |-> Never]
-        /\ diagTok = [u \in Uris |-> [g \in 0..MaxInc |-> 0]] /\ wsTok = 0 /\ cfgTok = 0
+        /\ diagTok = [u \in Uris |-> [g \in 0..MaxInc |-> 0]] /\ wsTok = 0 /\ cfgTok = 0 /\ rxTok = 0
         /\ reloadGen = 0 /\ reloadLock = 0
         /\ anR = {} /\ anW = 0 /\ wmR = {} /\ nDisk = 0 /\ late = {} /\ inc = [u \in Uris |-> 0]
         /\ hist = <<>>
@@ -100,7 +103,7 @@ NCfg == Cardinality({i \in 1..Len(script) : script[i].kind = "cfg"})
 Deliver(m) ==
   /\ mainBusy = 0 /\ Len(script) < MaxMsgs
   /\ m.kind = "open" => ~ClientOpen(m.uri)
-  /\ m.kind \in {"change", "close"} => ClientOpen(m.uri)
+  /\ m.kind \in {"change", "close", "save"} => ClientOpen(m.uri)
   /\ m.kind = "cfg" => NCfg < MaxCfg
   /\ script' = Append(script, m)
   /\ tasks' = Append(tasks, NewTask(m.kind, m.uri, m.text, Inline(m.kind), 1, 0))
@@ -108,7 +111,7 @@ Deliver(m) ==
   /\ hist' = Append(hist, [a |-> "deliver", kind |-> m.kind, uri |-> m.uri, text |-> m.text,
                            inline |-> Inline(m.kind), woke |-> {Len(tasks) + 1},
                            st |-> Proj(wmOpen, vfs, published, disk)])
-  /\ UNCHANGED <<wmOpen, wmVer, vfs, disk, published, diagTok, wsTok, cfgTok, reloadGen, reloadLock,
+  /\ UNCHANGED <<wmOpen, wmVer, vfs, disk, published, diagTok, wsTok, cfgTok, rxTok, reloadGen, reloadLock,
                  anR, anW, wmR, nDisk, late, inc>>
 
 ReloadPending == \E j \in 1..Len(tasks) : /\ tasks[j].pc # Done
@@ -124,7 +127,7 @@ DiskWrite(u, t) ==
   /\ ReloadPending          \* later disk changes are nobody's business until the next reload / watch event
   /\ disk' = [disk EXCEPT ![u] = t] /\ nDisk' = nDisk + 1
   /\ hist' = Append(hist, [a |-> "disk", uri |-> u, text |-> t, st |-> Proj(wmOpen, vfs, published, disk')])
-  /\ UNCHANGED <<script, mainBusy, tasks, wmOpen, wmVer, vfs, published, diagTok, wsTok, cfgTok,
+  /\ UNCHANGED <<script, mainBusy, tasks, wmOpen, wmVer, vfs, published, diagTok, wsTok, cfgTok, rxTok,
                  reloadGen, reloadLock, anR, anW, wmR, late, inc>>
 
 \* ---- lock guards (locks that are only held within one step need no state) -------------------------
@@ -137,7 +140,9 @@ CanWmW == wmR = {}
 ParkedAt(t) ==
   CASE t.kind \in {"open", "change"} ->
          (CASE t.pc = 1 -> <<"an", "R">> [] t.pc = 2 -> <<"wm", "R">> [] t.pc = 3 -> <<"wm", "W">>
-            [] t.pc = 4 -> <<"an", "W">> [] OTHER -> <<"diag_tokens", "M">>)
+            [] t.pc = 4 -> <<"an", "W">> [] t.pc = 6 -> <<"wm", "R">> [] OTHER -> <<"diag_tokens", "M">>)
+    [] t.kind = "save" -> (CASE t.pc = 1 -> <<"an", "R">> [] OTHER -> <<"wm", "R">>)
+    [] t.kind = "reindex" -> (CASE t.pc = 1 -> <<"wm", "R">> [] t.pc = 2 -> <<"an", "W">> [] OTHER -> <<"ws_diag_token", "M">>)
     [] t.kind = "close" -> (CASE t.pc = 1 -> <<"wm", "W">> [] t.pc = 2 -> <<"an", "W">> [] OTHER -> <<"an", "R">>)
     [] t.kind \in {"watch", "wdel", "cfg"} ->
          (CASE t.pc = 1 -> <<"wm", "R">> [] t.pc = 2 -> <<"an", "W">> [] OTHER -> <<"diag_tokens", "M">>)
@@ -182,8 +187,13 @@ DocStep(i) == LET t == tasks[i] u == t.uri IN
      /\ UNCHANGED <<vfs, published, diagTok, anR, anW, wmR>>
   \/ /\ t.pc = 4 /\ CanAnW(i)
      /\ vfs' = [vfs EXCEPT ![u] = t.text]
-     /\ tasks' = [tasks EXCEPT ![i].pc = 5, ![i].gen = inc[u]]     \* the FileId update_file_by_uri returned
+     /\ tasks' = [tasks EXCEPT ![i].pc = IF t.kind = "change" /\ EnableReindex THEN 6 ELSE 5,
+                                 ![i].gen = inc[u]]     \* the FileId update_file_by_uri returned
      /\ UNCHANGED <<wmOpen, wmVer, published, diagTok, anR, anW, wmR>>
+  \/ /\ t.pc = 6 /\ CanWmR   \* extend_reindex_delay: a pending reindex sleeps its full delay again
+     /\ tasks' = IF rxTok # 0 /\ tasks[rxTok].pc # Done
+                 THEN [tasks EXCEPT ![i].pc = 5, ![rxTok].text = "resleep"] ELSE Goto(tasks, i, 5)
+     /\ UNCHANGED <<wmOpen, wmVer, vfs, published, diagTok, anR, anW, wmR>>
   \/ /\ t.pc = 5           \* add_diagnostic_task: cancel the stored token, store a new one, spawn
      /\ LET ts1 == Cancel(tasks, diagTok[u][t.gen])      \* keyed by the FileId the handler got, dead or alive
             ts2 == Append(Finish(ts1, i), [NewTask("diag", u, None, FALSE, 1, DiagInterval) EXCEPT !.gen = t.gen]) IN
@@ -252,6 +262,37 @@ WatchStep(i) == LET t == tasks[i] u == t.uri IN
         /\ tasks' = ts2 /\ diagTok' = [diagTok EXCEPT ![u][t.gen] = Len(ts2)]
      /\ anW' = 0 /\ wmR' = wmR \ {i}
      /\ UNCHANGED <<wmOpen, wmVer, vfs, published, anR, cfgTok>>
+
+\* --- didSave -> debounced full reindex -------------------------------------------------------------
+SaveStep(i) == LET t == tasks[i] IN
+  \/ /\ t.pc = 1 /\ CanAnR
+     /\ tasks' = IF EnableReindex THEN Goto(tasks, i, 2) ELSE Finish(tasks, i)
+     /\ UNCHANGED rxTok
+  \/ /\ t.pc = 2 /\ CanWmR        \* reindex_workspace: replace the pending token, spawn the sleeper
+     /\ LET ts1 == Cancel(tasks, rxTok)
+            ts2 == Append(Finish(ts1, i), NewTask("reindex", None, None, FALSE, 1, ReindexDelay)) IN
+        /\ tasks' = ts2 /\ rxTok' = Len(ts2)
+ReindexStep(i) == LET t == tasks[i] IN
+  \/ /\ t.pc = 1 /\ CanWmR        \* workspace_manager read lock held over the clean-up (open documents stay put)
+     /\ wmR' = wmR \cup {i}
+     /\ tasks' = Goto(tasks, i, 2)
+     /\ UNCHANGED <<vfs, published, wsTok, rxTok>>
+  \/ /\ t.pc = 2 /\ CanAnW(i)     \* cleanup_nonexistent_files_except(open documents) + reindex
+     /\ LET removed == {u \in Uris : vfs[u] # Absent /\ disk[u] = Absent /\ wmOpen[u] = None} IN
+        /\ vfs' = [u \in Uris |-> IF u \in removed THEN Absent ELSE vfs[u]]
+        /\ published' = [u \in Uris |-> IF u \in removed THEN Empty ELSE published[u]]
+     /\ wmR' = wmR \ {i}
+     /\ tasks' = Goto(tasks, i, 3)
+     /\ UNCHANGED <<wsTok, rxTok>>
+  \/ /\ t.pc = 3                  \* refresh_workspace_diagnostics: cancel ...
+     /\ tasks' = Goto(Cancel(tasks, wsTok), i, 4) /\ wsTok' = 0
+     /\ UNCHANGED <<vfs, published, wmR, rxTok>>
+  \/ /\ t.pc = 4                  \* ... and schedule; the reindex token is cleared
+     /\ LET ts1 == Cancel(tasks, wsTok)
+            ts2 == Append(Finish(ts1, i), NewTask("wsdiag", None, None, FALSE, 1, WsDiagDelay)) IN
+        /\ tasks' = ts2 /\ wsTok' = Len(ts2)
+     /\ rxTok' = IF rxTok = i THEN 0 ELSE rxTok
+     /\ UNCHANGED <<vfs, published, wmR>>
 
 \* --- workspace reload -----------------------------------------------------------------------------
 OpenSet(f) == {u \in Uris : f[u] # None}
@@ -342,18 +383,24 @@ Step(i) ==
   /\ tasks[i].inline => mainBusy = i
   /\ LET k == tasks[i].kind IN
      \/ /\ k \in {"open", "change"} /\ DocStep(i)
-        /\ UNCHANGED <<disk, wsTok, cfgTok, reloadGen, reloadLock, nDisk, late>>
+        /\ UNCHANGED <<disk, wsTok, cfgTok, rxTok, reloadGen, reloadLock, nDisk, late>>
      \/ /\ k = "close" /\ CloseStep(i)
-        /\ UNCHANGED <<disk, wsTok, cfgTok, reloadGen, reloadLock, nDisk>>
+        /\ UNCHANGED <<disk, wsTok, cfgTok, rxTok, reloadGen, reloadLock, nDisk>>
      \/ /\ k = "diag" /\ DiagStep(i)
-        /\ UNCHANGED <<disk, wsTok, cfgTok, reloadGen, reloadLock, nDisk, late>>
+        /\ UNCHANGED <<disk, wsTok, cfgTok, rxTok, reloadGen, reloadLock, nDisk, late>>
      \/ /\ k \in {"watch", "wdel", "cfg"} /\ WatchStep(i)
-        /\ UNCHANGED <<disk, wsTok, reloadGen, reloadLock, nDisk, late>>
+        /\ UNCHANGED <<disk, wsTok, rxTok, reloadGen, reloadLock, nDisk, late>>
      \/ /\ k = "reload" /\ ReloadStep(i)
         /\ late' = IF tasks[i].pc = 4 THEN {} ELSE late
-        /\ UNCHANGED <<disk, diagTok, cfgTok, reloadGen, nDisk>>
+        /\ UNCHANGED <<disk, diagTok, cfgTok, rxTok, reloadGen, nDisk>>
+     \/ /\ k = "save" /\ SaveStep(i)
+        /\ UNCHANGED <<wmOpen, wmVer, vfs, disk, published, diagTok, wsTok, cfgTok, reloadGen, reloadLock,
+                       anR, anW, wmR, nDisk, late>>
+     \/ /\ k = "reindex" /\ ReindexStep(i)
+        /\ UNCHANGED <<wmOpen, wmVer, disk, diagTok, cfgTok, reloadGen, reloadLock,
+                       anR, anW, nDisk, late>>
      \/ /\ k \in {"wsdiag", "wsfile"} /\ WsStep(i)
-        /\ UNCHANGED <<wmOpen, wmVer, vfs, disk, diagTok, wsTok, cfgTok, reloadGen, reloadLock,
+        /\ UNCHANGED <<wmOpen, wmVer, vfs, disk, diagTok, wsTok, cfgTok, rxTok, reloadGen, reloadLock,
                        anR, anW, wmR, nDisk, late>>
   /\ inc' = IncAfterRemoval({u \in Uris : vfs[u] # Absent /\ vfs'[u] = Absent})
   /\ mainBusy' = IF tasks[i].inline /\ tasks'[i].pc = Done THEN 0 ELSE mainBusy
@@ -371,7 +418,9 @@ Tick ==
          ts1 == [j \in 1..Len(tasks) |->
                    IF j \in Sleepers
                    THEN (IF tasks[j].sleep = d
-                         THEN [tasks[j] EXCEPT !.sleep = 0, !.pc = IF tasks[j].kind = "debounce" THEN Done ELSE @]
+                         THEN (IF tasks[j].kind = "reindex" /\ tasks[j].text = "resleep"
+                               THEN [tasks[j] EXCEPT !.sleep = ReindexDelay, !.text = None]
+                               ELSE [tasks[j] EXCEPT !.sleep = 0, !.pc = IF tasks[j].kind = "debounce" THEN Done ELSE @])
                          ELSE [tasks[j] EXCEPT !.sleep = @ - d])
                    ELSE tasks[j]]
          fired == {j \in woken : tasks[j].kind = "debounce"} IN
@@ -381,7 +430,7 @@ Tick ==
              /\ reloadGen' = reloadGen + 1
              /\ cfgTok' = 0
      /\ hist' = Append(hist, [a |-> "tick", ms |-> d, woke |-> Woke(tasks, tasks'), st |-> Proj(wmOpen, vfs, published, disk)])
-  /\ UNCHANGED <<script, mainBusy, wmOpen, wmVer, vfs, disk, published, diagTok, wsTok, reloadLock,
+  /\ UNCHANGED <<script, mainBusy, wmOpen, wmVer, vfs, disk, published, diagTok, wsTok, rxTok, reloadLock,
                  anR, anW, wmR, nDisk, late, inc>>
 
 Next == \/ \E m \in Msgs : Deliver(m)
@@ -394,7 +443,7 @@ Spec == Init /\ [][Next]_vars
 \* ---- properties (judged when everything has settled) ----------------------------------------------
 Quiescent == /\ mainBusy = 0
              /\ \A i \in 1..Len(tasks) : tasks[i].pc = Done
-HadReload == \E i \in 1..Len(tasks) : tasks[i].kind = "reload"
+HadReload == \E i \in 1..Len(tasks) : tasks[i].kind \in {"reload", "reindex"} /\ tasks[i].pc = Done /\ ~tasks[i].cancelled
 OnlyDocMsgs == \A i \in 1..Len(script) : script[i].kind \in {"open", "change", "close"}
 
 \* C27: message order decides (scripts of didOpen/didChange/didClose only)
@@ -422,6 +471,6 @@ C30 == Quiescent =>
 Emit == (Quiescent /\ Len(script) > 0) =>
            PrintT(<<"SCHED", ToJson([hist |-> hist,
                                      kinds |-> [i \in 1..Len(tasks) |-> tasks[i].kind],
-                                     c27 |-> C27, c29 |-> C29, c30 |-> C30,
+                                     c27 |-> C27, c29 |-> C29, c30 |-> C30, reindex |-> EnableReindex,
                                      script |-> script])>>)
 =============================================================================
